@@ -335,7 +335,7 @@ if __name__ == "__main__":
         "dialSync: atomic sections are getActiveDial and the locked tail of Dial; theorems over every interleaving of them (c05_sync_refcount, c05_sync_cancel_before_close, c05_sync_leaving_caller_keeps_shared_dial). Which of 'context cancelled' / 'reqch closed' the worker notices first is the scheduler's choice: the conformance accepts both orders, the monitor rejects only 'closed while the context is not cancelled'. The dialSync monitor itself is not proved over model traces (_partial)",
         "composite: ModelComposite.cstep is an LTS over the atomic sections of dialPeer / dialSync.Dial / the worker loop / the limiter (labels CCall, CDeliver, CTimer, CBegin, CRes, CFin, CCancel, CLeave, CExit) that moves the component models only by their own steps; theorems c05_composite_* hold for every schedule (list of labels). Merged sections: the AddDialJob calls of one timer case are part of that step; a worker whose reqch is closed is frozen except for its exit (its further iterations touch only its own dead state, the back-off table and jobs whose context is already cancelled); back-off, existing connections, rankings and the clock are environment answers carried by the labels",
         "composite correspondence: every recorded DialPeer scenario is replayed by the composite model under the harness-level semantics of SpecComposite (one stimulus, then every enabled step until nothing moves). ACCEPTANCE: when the last caller leaves in the same step in which a dial ends, finishedDial races with the cancellation of the shared context, so a queued job that gets a token may or may not reach its transport before it is cancelled; such transient dial starts/ends may be any subset of those the model's schedule produces; everything else must agree exactly",
-        "FINDING (known_findings/C05.json): c05_composite_no_lost_job_refuted - the deferred clearAllPeerDials of a worker that returns late (after its activeDial was closed and a NEW one for the same peer has queued jobs on the per-peer limit) deletes those live jobs; reproduced on the implementation by the fixed corpus scenario c05DialPeerStaleExit (worker parked in the connection gater), monitor clause 9; proposed fix fixes/C05-clear-peer-dials-keeps-live-jobs.diff. c05_composite_no_lost_job_partial holds for schedules in which a closed worker returns only while no live job waits on its peer's limit",
+        "REPAIRED DEFECT (known_findings/C05.json, status fixed, /repo commit e092243): clearAllPeerDials, run by the deferred exit of a worker that returns late, used to delete the live jobs a newer active dial for the same peer had queued on the per-peer limit. The model transcribes the repaired code (only jobs whose context is done are dropped); c05_composite_no_lost_job now holds for every schedule; the old code is kept as clear_peer_old for the non-vacuity example; the harness scenario c05DialPeerStaleExit (old worker parked in the connection gater) is a fixed regression case on which monitor clause 9 must hold",
         "PARTIAL (composite monitor): c05_composite_monitor_accepts_partial proves only that the caps clause (4) of the DialPeer monitor never fires on composite-model traces; clauses 1-3 and 5-8 are judged on implementation traces (state-level counterparts: c05_composite_answered_at_most_once, _cancelled_caller_returns, _dedup, _leaving_caller_keeps_shared_dials, _no_leaked_active_dial); exactly-once is proved as at-most-once plus availability of the answer at worker quiescence (timer firing and dials reporting are environment hypotheses). Concurrency finer than the listed atomic sections is covered by the correspondence only",
         "ranker: addresses are the tuple of answers of the predicates the ranker evaluates (recorded from the real predicates); sort.Slice is a Section hypothesis (permutes its input), instantiated with stable insertion sort (what sort.Slice runs for <= 12 elements; cases have <= 10 addresses)",
         "DNS resolution, black-hole detector and back-off expiry are inputs (BackoffBase is set to 24h in the worker harness so entries do not expire in a case)",
@@ -365,7 +365,7 @@ if __name__ == "__main__":
              "context state and the returns of every step compared with the model (either cancel/close observation order accepted). Non-trivial = a caller "
              "was cancelled. DialPeer: seeded random cases of whole Swarm.DialPeer (real dialSync + worker + limiter with caps 1-3 / 1-4, scripted transports "
              "that hang until ended or cancelled): 1-7 addresses of mixed classes, back-off left before, up to 6 concurrent callers with independent "
-             "cancellation and flags, virtual time, plus the fixed corpus scenario of the finding (a closed worker parked in the connection gater returns after a new active dial has "
+             "cancellation and flags, virtual time, plus the fixed regression scenario of the repaired defect (a closed worker parked in the connection gater returns after a new active dial has "
              "queued jobs); every observation replayed by the composite model (SpecComposite) and judged by the monitor. Non-trivial = two callers inside at once and a transport dial started. "
              "ranker: DefaultDialRanker on 0-10 real multiaddrs of 19 kinds, output compared element by element. Non-trivial = >= 3 addresses "
              "with both IP versions. distinct = distinct case lines.",
